@@ -127,6 +127,25 @@ STRUCTSEQ_REPRS = [
 ]
 
 
+def _straight_defs(fn_node, stmt):
+    """name -> value expression of the last plain assignment to it that precedes ``stmt`` in the statement list that contains
+    ``stmt`` (nothing in between can skip it)"""
+    for parent in ast.walk(fn_node):
+        for field in ('body', 'orelse', 'finalbody'):
+            block = getattr(parent, field, None)
+            if isinstance(block, list) and any(x is stmt for x in block):
+                out = {}
+                for x in block[:[i for i, y in enumerate(block) if y is stmt][0]]:
+                    if isinstance(x, ast.Assign) and len(x.targets) == 1 and isinstance(x.targets[0], ast.Name):
+                        out[x.targets[0].id] = x.value
+                    else:
+                        for w in ast.walk(x):
+                            if isinstance(w, ast.Name) and isinstance(w.ctx, ast.Store):
+                                out.pop(w.id, None)
+                return out
+    return {}
+
+
 def keyed_cache_values(repo, rep, rule):
     """What the print pipeline remembers per class must be a function of the class alone (otherwise the first value of a class that
     is printed decides how all later ones print).  For every store into the class-keyed cache: the key is the class of the value, and
@@ -146,6 +165,7 @@ def keyed_cache_values(repo, rep, rule):
                     if isinstance(t, ast.Name):
                         defs.setdefault(t.id, []).append(a.value)
         limit = [10 ** 9]
+        dominating = {}
 
         def origins(e, depth=0):
             if isinstance(e, ast.Constant):
@@ -154,12 +174,19 @@ def keyed_cache_values(repo, rep, rule):
                 if e.id in handler_names:
                     return {'the exception of a failed attempt'}
                 ds = [d for d in defs.get(e.id, []) if d.lineno <= limit[0]]
+                # a definition in the same block, straight above the use, is the one that reaches it
+                dom = dominating.get(e.id)
+                if dom is not None:
+                    ds = [dom]
                 if ds and depth < 5:
                     out = set()
                     for d in ds:
                         out |= origins(d, depth + 1)
                     return out
                 return {'the value being printed (%s)' % e.id} if e.id in f.params else {'%s' % e.id}
+            if isinstance(e, (ast.Call, ast.Subscript)) and store in {x.id for x in ast.walk(e) if isinstance(x, ast.Name)} \
+                    and (isinstance(e, ast.Subscript) or (isinstance(e.func, ast.Attribute) and e.func.attr in ('get', 'setdefault'))):
+                return {'class'}        # what the cache already holds for the key
             if isinstance(e, ast.Call) and isinstance(e.func, ast.Name):
                 if e.func.id == 'type' and len(e.args) == 1:
                     return {'class'}
@@ -184,6 +211,8 @@ def keyed_cache_values(repo, rep, rule):
             t = next(t for t in st.targets if isinstance(t, ast.Subscript))
             n += 1
             limit[0] = st.lineno
+            dominating.clear()
+            dominating.update(_straight_defs(f.node, st))
             ko = origins(t.slice)
             rep.check(ko <= {'class'}, rule, 'keyed-cache:%s:key-is-the-class' % f.qualname, '%s:%d' % (m.relpath, st.lineno),
                       'the cache is keyed by the class of the value', '%s stores into %s under a key derived from %s' % (f.key, store, sorted(map(str, ko))),
